@@ -126,6 +126,9 @@ func (h *Handler) BindContext(ctx context.Context, server core.Server) {
 // ServeHTTP implements the http.Handler interface.
 func (h *Handler) ServeHTTP(response http.ResponseWriter, request *http.Request) {
 	if request.ContentLength > int64(h.Service.MaxRequestLength) {
+		// let the peer finish sending first: a client that finds the connection closed
+		// while it is still writing reports that instead of reading this answer.
+		_, _ = io.Copy(ioutil.Discard, request.Body)
 		response.WriteHeader(http.StatusRequestEntityTooLarge)
 		return
 	}
